@@ -31,8 +31,8 @@ MANIFEST = {
     'level_note': 'Trusts rrule_ref (self-tested) and CPython datetime/calendar; horizon-bounded, so carry errors beyond the horizon '
                   'are only seen through the MAXYEAR class of starts (year 9990).',
 }
-PLAN = {'quick': {'shards': 4, 'timeout': 500, 'budget': 50},
-        'thorough': {'shards': 16, 'timeout': 2400, 'budget': 600}}
+PLAN = {'quick': {'shards': 4, 'timeout': 1800, 'budget': 900},
+        'thorough': {'shards': 16, 'timeout': 7200, 'budget': 2400}}
 N_CASES = {'quick': 2500, 'thorough': 30000}
 
 
